@@ -117,8 +117,10 @@ def parse_generic_first(ty, head):
     start = len(head) + 1
     for i in range(start, len(ty)):
         c = ty[i]
-        if c == "<":
+        if c in "<([":
             depth += 1
+        elif c in ")]":
+            depth -= 1
         elif c == ">":
             if depth == 0:
                 return ty[start:i].strip()
@@ -204,6 +206,25 @@ class Num:
                     return parse_generic_first(bt, "std::result::Result")
             if base[0] == "deref":
                 bt = self.ty_of(base[1])
+            # component of a tuple-typed value: `(usize, &mut u8)` -> field 0 is usize
+            bt = self.ty_of(base)
+            if isinstance(bt, str) and bt.startswith("(") and bt.endswith(")") and str(t[2]).isdigit():
+                parts, depth, cur = [], 0, ""
+                for ch in bt[1:-1]:
+                    if ch in "(<[":
+                        depth += 1
+                    elif ch in ")>]":
+                        depth -= 1
+                    if ch == "," and depth == 0:
+                        parts.append(cur.strip())
+                        cur = ""
+                    else:
+                        cur += ch
+                if cur.strip():
+                    parts.append(cur.strip())
+                i = int(t[2])
+                if i < len(parts):
+                    return parts[i]
             return None
         if k == "okval":
             bt = self.ty_of(t[1])
